@@ -1839,6 +1839,7 @@ IGNORABLE_CLASS_DUNDERS: Final = frozenset(
         "__non_callable_proto_members__",
         # typing implementation details, consider removing some of these:
         "__parameters__",
+        "__type_params__",  # PEP 695
         "__origin__",
         "__args__",
         "__orig_bases__",
